@@ -27,6 +27,18 @@ V("c09e-jax-left-polar-by-adjoint", "C09", "silent",
 V("c09e-jax-polar-sides-swapped", "C09", {"rule": "C09e", "contains": "JaxConnector.polar"},
   (JAXC, "        return self._scipy.linalg.polar(a, side, method=\"svd\")",
    "        return self._scipy.linalg.polar(a, \"left\" if side == \"right\" else \"right\", method=\"svd\")"))
+GSTEPS = "piquasso/_simulators/gaussian/simulation_steps.py"
+V("c09f-stale-alias-read-after-assign", "C09", {"rule": "C09f", "contains": "_apply_passive_linear_to_auxiliary_modes"},
+  (GSTEPS, "    auxiliary_index = get_auxiliary_operator_index(modes, auxiliary_modes)\n\n    state._C = connector.assign(",
+   "    auxiliary_index = get_auxiliary_operator_index(modes, auxiliary_modes)\n    C = state._C\n\n    state._C = connector.assign(", 1),
+  (GSTEPS, "state._C, assign_index, np.conj(state._C[modes, :]).transpose()", "state._C, assign_index, np.conj(C[modes, :]).transpose()", 1))
+V("c09f-result-under-new-name-old-not-read", "C09", "silent",
+  (GSTEPS, "    state._G = connector.assign(state._G, assign_index, state._G[modes, :].transpose())",
+   "    rows_done = state._G\n    mirrored = connector.assign(rows_done, assign_index, rows_done[modes, :].transpose())\n    state._G = mirrored", 2))
+V("c09f-shape-read-after-assign", "C09", "silent",
+  (GSTEPS, "    auxiliary_index = get_auxiliary_operator_index(modes, auxiliary_modes)\n\n    state._C = connector.assign(",
+   "    auxiliary_index = get_auxiliary_operator_index(modes, auxiliary_modes)\n    C = state._C\n\n    state._C = connector.assign(", 1),
+  (GSTEPS, "    assign_index = np.ix_(np.arange(state.d), np.array(modes))", "    assign_index = np.ix_(np.arange(state._C.shape[0]), np.array(modes))", 2))
 # ------------------------------------------------------------------------------------------- C20
 V("c20-sub-add", "C20", {"rule": "C20c", "contains": "Sub"}, (EXPR, "ast.Sub: op.sub", "ast.Sub: op.add"))
 V("c20-lt-le", "C20", {"rule": "C20c", "contains": "Lt"}, (EXPR, "ast.Lt: op.lt", "ast.Lt: op.le"))
